@@ -1,4 +1,5 @@
 """Runners for C02 (window statistics), C03 (finite memory), C05 (RSI family) on top of sfa/e5_flow.py."""
+from .model import model
 from .e5_flow import Flow, signed_terms
 from .e3_bounds import predicate_counter
 from .solve import entails_h, linear, NonLinear
@@ -24,8 +25,9 @@ def queue_buffers(fl):
     return [q for q, info in fl.queues.items() if info['shape'] in ('pop-then-push', 'push-then-pop')]
 
 
-def check_windows(F, R, names, rule='W1'):
-    """Every queue-shaped buffer of the named views holds exactly the last N delivered values."""
+def check_windows(F, R, names, rule='W1', only=None):
+    """Every queue-shaped buffer of the named views holds exactly the last N delivered values.
+    `only`: {view: [buffer, ..]} restricts the rule to the named buffers of a view."""
     views = view_by_name(F)
     for n in names:
         v = views.get(n)
@@ -37,18 +39,51 @@ def check_windows(F, R, names, rule='W1'):
         if not qs:
             R.violation(rule, n + ':no-window', 'no evict-oldest/insert-newest window buffer recognised in %s' % n, v.file)
             continue
+        if only and n in only:
+            qs = [q for q in qs if q in only[n]]
+            if not qs:
+                R.violation(rule, n + ':no-window', 'the window buffer of %s is not an evict-oldest/insert-newest queue' % n, v.file)
+                continue
         for q in qs:
             best = None
+            used = None
             for p in fl.B.int_params:
                 ok, detail = fl.window_exact(q, p)
                 if ok:
                     best = (True, detail)
+                    used = p
                     break
                 if best is None:
                     best = (False, detail)
             if best is None:
                 best = (False, 'no window-length parameter')
             R.ob(rule, '%s:%s' % (n, q), best[0], best[1], v.file)
+            if used is not None:
+                # W0: that parameter is the window length the caller asked for: every public constructor stores its usize
+                # argument unchanged (also through the constructor of an inlined inner view)
+                bad = None
+                for mm in fl.m.ctor_models:
+                    if mm['init'] is None or not mm['fn'].vis.startswith('Public'):
+                        continue
+                    t = mm['init'].get(used)
+                    if not (isinstance(t, tuple) and t and t[0] == 'arg'):
+                        bad = '%s stores %s in `%s`: the window holds that many values, not the requested window length' % (
+                            mm['fn'].name, tstr(t)[:60] if t else '?', used)
+                R.ob(rule + '-param', '%s:%s' % (n, q), bad is None, 'the window length is the constructor argument itself' if bad is None else bad, v.file)
+
+
+def no_unknowns(F, R, names, rule='U0'):
+    """Fail closed: a construct the value graph does not model (an opaque term) in update()/last() of a view under analysis
+    means the rules of this property would be judging an incomplete model."""
+    views = view_by_name(F)
+    for n in names:
+        v = views.get(n)
+        if v is None:
+            continue
+        m = model(F, v)
+        for vg, label in ((m.up_vg, 'update'), (m.last_vg, 'last')):
+            for what, where in vg.unknowns:
+                R.violation(rule, '%s:%s:%s' % (n, label, what), 'construct not understood by the value graph (%s): the analysis of %s is incomplete' % (what, n), where)
 
 
 def float_cells(fl):
@@ -263,8 +298,10 @@ def check_welford_cross(F, R, name='WelfordOnline', rule='W5-cross'):
             a, b = t[2][0][2][1], t[2][1][2][1]
             step = 'add' if sg > 0 else 'sub'
             def one_step(A, B):
-                return (B[0] == 'op' and B[1] == step and B[2][0] == A and B[2][1][0] == 'op' and B[2][1][1] == 'div'
-                        and B[2][1][2][0] == op('sub', X, A))
+                if not (B[0] == 'op' and B[1] == step and len(B[2]) == 2):
+                    return False
+                pairs = [(B[2][0], B[2][1])] + ([(B[2][1], B[2][0])] if step == 'add' else [])
+                return any(a_ == A and d_[0] == 'op' and d_[1] == 'div' and d_[2][0] == op('sub', X, A) for a_, d_ in pairs)
             if one_step(a, b):
                 A, B = a, b
             elif one_step(b, a):
@@ -360,7 +397,8 @@ def census(F, R, names, rule='CEN'):
             if not self_referential(fl, cell):
                 # only holds its value: no accumulation
                 if data_holds and allowed_hold:
-                    R.ob(rule, key, True, 'listed hold register: ' + spec.HOLD_REGISTERS[(n, cell)], v.file)
+                    okh, whyh = hold_is_exact(fl, cell)
+                    R.ob(rule, key, okh, 'listed hold register: ' + spec.HOLD_REGISTERS[(n, cell)] if okh else whyh, v.file)
                 elif data_holds:
                     R.ob(rule, key, False, 'keeps its previous value under a data-dependent condition %s: not one of the allowed hold registers' % data_holds[0][1][:3], v.file)
                 else:
@@ -368,7 +406,14 @@ def census(F, R, names, rule='CEN'):
                 continue
             acc = fl.accumulator(cell)
             if acc['ok'] and (acc['ev'] or any(c for _, c, _ in acc['ins'])):
-                ok, detail, _ = fl.mirror(acc)
+                ok, detail, regmap_ = fl.mirror(acc)
+                # the registers the mirror argument unifies (newest predecessor / oldest predecessor) must advance correctly,
+                # including the first-value seed, or the first value's contribution is never taken back
+                for a_, b_ in (regmap_ or {}).items():
+                    if a_ != b_ and ok:
+                        okp, dp = fl.register_pair(a_, b_)
+                        if not okp:
+                            ok, detail = False, dp
                 R.ob(rule, key, ok, 'paired accumulator: ' + detail, v.file)
                 continue
             kind, okx, detail = fl.extremum(cell)
@@ -379,7 +424,8 @@ def census(F, R, names, rule='CEN'):
                 R.ob(rule, key, True, 'Welford aggregate: forgetting rests on the add/remove pair checked by W5 (C02)', v.file)
                 continue
             if data_holds and allowed_hold and not self_referential_beyond_hold(fl, cell):
-                R.ob(rule, key, True, 'listed hold register: ' + spec.HOLD_REGISTERS[(n, cell)], v.file)
+                okh, whyh = hold_is_exact(fl, cell)
+                R.ob(rule, key, okh, 'listed hold register: ' + spec.HOLD_REGISTERS[(n, cell)] if okh else whyh, v.file)
                 continue
             if data_holds and not allowed_hold:
                 R.ob(rule, key, False, 'keeps its previous value under a data-dependent condition %s: not one of the allowed hold registers' % data_holds[0][1][:3], v.file)
@@ -388,6 +434,50 @@ def census(F, R, names, rule='CEN'):
                 R.ob(rule, key, False, 'keeps its previous value while values are leaving the window: stale state', v.file)
                 continue
             R.ob(rule, key, False, 'self-referential state cell of unrecognised kind: it can carry information older than the window (%s)' % (acc['why'] or detail), v.file)
+
+
+def hold_is_exact(fl, cell):
+    """(ok, why): a listed hold register keeps its previous value exactly when the ratio it would otherwise report has a
+    zero divisor: every data condition of a hold case is `D == 0` for a divisor D of the value stored in the other cases."""
+    from .terms import relation
+    try:
+        cs = fl.cell_cases(cell, deep=False)
+    except OverflowError:
+        return False, 'too many cases'
+    divisors = set()
+    for conds, leaf in cs:
+        if leaf != ('in', cell):
+            for x in subterms(leaf):
+                if x[0] == 'op' and x[1] == 'div' and len(x[2]) == 2:
+                    divisors.add(x[2][1])
+    zero = lit(0.0)
+    from .terms import eval3
+    CMP = ('eq', 'ne', 'lt', 'le', 'gt', 'ge')
+    for conds, leaf in cs:
+        if leaf != ('in', cell) or not fl.delivering(conds):
+            continue
+        # assume every divisor is non-zero: the hold case must then be infeasible, or hold for structural reasons only
+        assign = {}
+        data_atoms = []
+        for c in conds:
+            for x in subterms(c):
+                if x[0] == 'op' and x[1] in CMP and len(x[2]) == 2 and not fl.structural(x):
+                    rels = [relation(x, D, zero) for D in divisors]
+                    rels = [r for r in rels if r is not None]
+                    if rels and rels[0] == {'='}:
+                        assign[x] = False
+                    elif rels and rels[0] == {'<', '>'}:
+                        assign[x] = True
+                    else:
+                        data_atoms.append(x)
+        vals = [eval3(c, assign) for c in conds]
+        if any(v_ is False for v_ in vals):
+            continue
+        undecided = [c for c, v_ in zip(conds, vals) if v_ is None]
+        live = [x for x in data_atoms if any(x in set(subterms(c)) for c in undecided)]
+        if live:
+            return False, 'the previous value is also kept under %s, which is not "the divisor of the reported ratio is zero"' % tstr(live[0])[:70]
+    return True, ''
 
 
 def self_referential_beyond_hold(fl, cell):
@@ -436,6 +526,12 @@ def run_c02(F, R):
     from .e_typed_props import no_absolute_thresholds
     no_absolute_thresholds(F, R, spec.WINDOW_VIEWS, 'G0')
     roc_base(F, R)
+    v_roc = view_by_name(F).get('Roc')
+    if v_roc is not None:
+        fl_roc = flow(F, v_roc)
+        for cell in [c for c in fl_roc.m.touched if c.split('.')[-1] == 'out']:
+            okh, whyh = hold_is_exact(fl_roc, cell)
+            R.ob('G-roc', 'Roc:hold', okh, 'the previous output is kept exactly when the base (the divisor) is 0' if okh else whyh, v_roc.file)
     R.floor('W1', 10)
     R.floor('M1', 2)
     R.floor('W2', 2)
